@@ -5,7 +5,8 @@
     a single outermost critical section over the bar mutex.  This file states that discipline over
     the lock footprints (model/Locks.v; generated table gen/LockFootprints.all_programs), in the style
     of model/Brackets.v but over the BAR lock alone and with the position of the callbacks:
-      - [bar_sections]: number of outermost critical sections over the bar mutex;
+      - [bar_sections]: number of outermost critical sections over the bar mutex (exactly 1 for every
+        call except tick / inc / dec / set_position, which may do nothing under the mutex: at most 1);
       - [inside_bar]: every state access that the footprints mark - taking the MultiState lock (the
         draw), BarState::tick, and every user callback (the closure of suspend, tracker callbacks of
         the rendering) - happens while the bar mutex is held, and the mutex is never given up by a
@@ -14,6 +15,11 @@
     gives up its Arc first ([CDropArc]) and BarState::drop runs with exclusive ownership; for it
     [owned_access] says that everything happens after that point and the bar mutex is not touched
     (the number of its MultiState sections is Brackets.allowed_sections, property C02).
+    NOT visible in the footprints (no [caction] marks them): the atomics that inc / dec / set_position
+    and tick touch BEFORE their bar section - position store, position limiter, ticker-slot read.
+    In C01 (one thread issues the calls) that is harmless; with concurrent clones it is the source of
+    C02's finding D33.  "One op = one atomic step" is justified by this file only for what happens
+    behind the mutex.
     Definitions only. *)
 From IndModel Require Import Base Locks Brackets Sys SingleBar.
 From Coq Require Import String.
@@ -113,11 +119,30 @@ Definition own_step (a : caction) (owned : bool) : option bool :=
 Definition drop_owned (p : cprog) : bool :=
   match acheck Bool.eqb own_step p [false] with Some _ => true | None => false end.
 
+(** all paths: balanced, everything inside, EXACTLY one section (same check as
+    BracketsC16.exactly_one_bar_section, which imports this file and cannot be imported here) *)
+Definition just_one_bar_section (p : cprog) : bool :=
+  match acheck st_eqb bar_step p [(0, 0)%nat] with
+  | Some outs => forallb (fun st => Nat.eqb (fst st) 0 && Nat.eqb (snd st) 1) outs
+  | None => false
+  end.
+
+(** the calls that may do NOTHING under the bar mutex: [tick] while a steady ticker runs
+    (progress_bar.rs tick: the ticker slot is read first, outside the section), and inc / dec /
+    set_position when the position limiter refuses the draw.  NOTE what the footprints do not see for
+    these four: the position store (AtomicPosition fetch_add / store), the position limiter
+    (`pos.allow(now)`, atomics) and the ticker-slot read happen BEFORE the bar section, without the
+    bar mutex, and [caction] has no marker for them. *)
+Definition c01_may_skip (name : string) : bool :=
+  String.eqb name "ProgressBar::tick" || String.eqb name "ProgressBar::inc"
+  || String.eqb name "ProgressBar::dec" || String.eqb name "ProgressBar::set_position".
+
 (** the check of one call of the alphabet against a table of structured programs *)
 Definition c01_call_okb (tbl : list (string * cprog)) (name : string) : bool :=
   match pg_lookup name tbl with
   | Some p => if String.eqb name "ProgressBar::drop" then drop_owned p && bracket_ok_p (name, p)
-              else one_bar_section p
+              else if c01_may_skip name then one_bar_section p
+              else just_one_bar_section p
   | None => false
   end.
 
